@@ -421,3 +421,776 @@ Proof.
     + exists l, vs'. split; [exact Hl|]. split; [|exact Hvs'].
       rewrite Hrefs. unfold refs_of. rewrite map_app. cbn [map fst]. rewrite <- app_assoc. reflexivity.
 Qed.
+
+Lemma has_ref_app : forall r l x, has_ref r l = true -> has_ref r (l ++ x) = true.
+Proof. intros r l x H. unfold has_ref in *. rewrite existsb_app, H. reflexivity. Qed.
+
+Lemma fill_defaults_succeeds : forall decl i l,
+  (forall j t, nth_error decl j = Some (t, NotNull) -> has_ref (RField (i + j)) l = true) ->
+  exists l', fill_defaults decl i l = Some l'.
+Proof.
+  induction decl as [|[t n] decl IH]; intros i l H; cbn [fill_defaults]; [eauto|].
+  assert (Hrest : forall l2, (forall r, has_ref r l = true -> has_ref r l2 = true) ->
+                  forall j t0, nth_error decl j = Some (t0, NotNull) -> has_ref (RField (S i + j)) l2 = true).
+  { intros l2 Hm j t0 Hj. apply Hm. replace (S i + j)%nat with (i + S j)%nat by lia. apply (H (S j) t0). exact Hj. }
+  destruct (has_ref (RField i) l) eqn:Eh.
+  - apply IH. apply Hrest. auto.
+  - destruct n.
+    + specialize (H 0%nat t eq_refl). rewrite Nat.add_0_r, Eh in H. discriminate.
+    + apply IH. apply Hrest. auto.
+    + apply IH. apply Hrest. intros r Hr. apply has_ref_app. exact Hr.
+Qed.
+
+Lemma validate_params_succeeds : forall vs ps,
+  NoDup (map fst vs) ->
+  (forall x vt, In (x, vt) vs -> exists p, lookup x ps = Some p /\ validate_one vt p <> None) ->
+  exists ps', validate_params vs ps = Some ps'.
+Proof.
+  induction vs as [|[x vt] vs IH]; intros ps Hnd H; cbn [validate_params]; [eauto|].
+  cbn [map fst] in Hnd. inversion Hnd as [|? ? Hn Hnd']; subst.
+  destruct (H x vt (or_introl eq_refl)) as (p & Hl & Hv). rewrite Hl.
+  destruct (validate_one vt p) as [p'|]; [|contradiction]. apply IH; [exact Hnd'|].
+  intros y vt' Hin. assert (Hyx : y <> x).
+  { intro; subst. apply Hn. change x with (fst (x, vt')). apply in_map. exact Hin. }
+  destruct (H y vt' (or_intror Hin)) as (q & Hq & Hvq). exists q. split; [|exact Hvq].
+  rewrite lookup_cons_neq by exact Hyx. rewrite lookup_remove_neq by exact Hyx. exact Hq.
+Qed.
+
+Lemma param_fits_validates : forall k p, param_fits k p = true -> validate_one (variable_type k) p <> None.
+Proof.
+  intros k p H. destruct k as [[| | | | |] [| |]| |], p as [| |[|]|s|s|];
+    cbn [param_fits field_nullable] in H; try discriminate;
+    cbn [variable_type field_type field_is_system field_nullable validate_one];
+    try discriminate; try (rewrite H; discriminate);
+    try (apply andb_prop in H; destruct H as [Hb _]; rewrite Hb; discriminate).
+Qed.
+
+Lemma first_bad_ok : forall l, Forall (fun o => o = OOk) l -> first_bad l = OOk.
+Proof. induction 1 as [|o l Ho Hl IH]; cbn [first_bad]; [reflexivity|]. subst. exact IH. Qed.
+
+(* the outcome of one entry of a valid mutation *)
+Lemma entry_outcome : forall m vs ps' r k fv v vs0 vs1,
+  NoDup (map fst vs) -> validate_params vs (m_params m) = Some ps' ->
+  k1_mutation m = false ->
+  In (r, v) (m_vals m) -> fkind_of (m_decl m) r = Some k ->
+  value_fits k v (m_params m) = true ->
+  parse_value k v vs0 = Some (fv, vs1) ->
+  (forall x, fv = FVar x -> In (x, variable_type k) vs) ->
+  (field_is_system k = true -> uid_field fv ps' = OOk) /\
+  (field_is_system k = false -> assemble_field k fv ps' = OOk).
+Proof.
+  intros m vs ps' r k fv v vs0 vs1 Hnd Hv Hk1 Hin Hk Hfit Hp Hx.
+  assert (Hnok1 : forall (P : Prop), k = FUser FJson Nullable ->
+            (v = MNull \/ exists x, v = MVar x /\ lookup x (m_params m) = Some PNull) -> P).
+  { intros P -> Hc. rewrite (k1_intro m r v Hin Hk Hc) in Hk1. discriminate. }
+  destruct v; cbn [parse_value value_fits] in Hp, Hfit.
+  - (* variable *)
+    destruct (vars_add vs0 x (variable_type k)); [|discriminate]. inversion Hp; subst fv vs1.
+    destruct (bound_value _ _ _ x _ Hnd Hv (Hx x eq_refl)) as (p0 & p' & Hl0 & Hone & Hb).
+    rewrite Hl0 in Hfit. unfold uid_field, assemble_field. rewrite Hb.
+    destruct k as [[| | | | |] [| |]| |], p0 as [| |[|]|s|s|];
+      cbn [param_fits field_nullable] in Hfit; try discriminate;
+      cbn [variable_type field_type field_is_system field_nullable validate_one] in Hone;
+      try discriminate;
+      try (apply andb_prop in Hfit; destruct Hfit as [Hb64 Hu]);
+      try rewrite Hfit in Hone; try rewrite Hb64 in Hone;
+      inversion Hone; subst p'; cbn [field_is_system field_type as_string];
+      (split; intro Hs; try discriminate; try reflexivity);
+      try (rewrite Hfit; reflexivity);
+      try (rewrite Hb64; cbn [negb]; destruct (s_uid s); try discriminate; reflexivity).
+    all: try (apply (Hnok1 _ eq_refl); right; exists x; split; [reflexivity|exact Hl0]).
+  - (* null *)
+    apply andb_prop in Hfit. destruct Hfit as [Hn Hs]. rewrite Hn in Hp. inversion Hp; subst fv vs1.
+    destruct k as [[| | | | |] [| |]| |]; cbn [field_nullable field_is_system negb] in Hn, Hs; try discriminate;
+      unfold assemble_field; cbn [value_of field_type field_is_system];
+      (split; intro Hsys; try discriminate; try reflexivity).
+    apply (Hnok1 _ eq_refl). left. reflexivity.
+  - destruct k as [[| | | | |] n| |]; try discriminate. cbn [field_type] in Hp. inversion Hp; subst.
+    split; intro; [discriminate|reflexivity].
+  - destruct k as [[| | | | |] n| |]; try discriminate; cbn [field_type] in Hp.
+    + inversion Hp; subst. split; intro; [discriminate|reflexivity].
+    + rewrite Hfit in Hp. inversion Hp; subst. split; intro; [discriminate|reflexivity].
+  - destruct k as [[| | | | |] n| |]; try discriminate. cbn [field_type] in Hp. inversion Hp; subst. try rewrite Hfit.
+    split; intro; [discriminate|reflexivity].
+  - destruct k as [[| | | | |] n| |]; try discriminate; cbn [field_type] in Hp;
+      try (apply andb_prop in Hfit; destruct Hfit as [Hb64 Hu]);
+      try rewrite Hfit in Hp; try rewrite Hb64 in Hp; inversion Hp; subst;
+      unfold uid_field, assemble_field; cbn [value_of field_type field_is_system as_string];
+      (split; intro Hs; try discriminate; try reflexivity);
+      try (rewrite Hfit; reflexivity);
+      try (rewrite Hb64; cbn [negb]; destruct (s_uid s); try discriminate; reflexivity).
+Qed.
+
+Lemma fkind_sys : forall decl r k, fkind_of decl r = Some k -> field_is_system k = is_sys_ref r.
+Proof.
+  intros decl r k H. destruct r; cbn [fkind_of] in H.
+  - destruct (nth_error decl i) as [[t n]|]; inversion H. reflexivity.
+  - inversion H. reflexivity.
+  - inversion H. reflexivity.
+Qed.
+
+Theorem valid_mutation_executes : forall m,
+  mutation_valid m = true -> k1_mutation m = false -> mutate_outcome m = OOk.
+Proof.
+  intros m Hvalid Hk1. unfold mutation_valid in Hvalid.
+  apply andb_prop in Hvalid. destruct Hvalid as [Hvalid Hreq].
+  apply andb_prop in Hvalid. destruct Hvalid as [Hvalid Hcons].
+  apply andb_prop in Hvalid. destruct Hvalid as [Hnodup Hfits].
+  rewrite forallb_forall in Hfits.
+  assert (Hfit' : Forall (fun rv => match fkind_of (m_decl m) (fst rv) with
+                                    | Some k => value_fits k (snd rv) (m_params m) = true
+                                    | None => False end) (m_vals m)).
+  { apply Forall_forall. intros rv Hin. specialize (Hfits rv Hin).
+    destruct (fkind_of (m_decl m) (fst rv)); [exact Hfits|discriminate]. }
+  destruct (parse_fields_succeeds m (m_vals m) [] [] Hcons (incl_refl _) Hfit' Hnodup)
+    as (l0 & vs & Hpf & Hrefs & Hvars); [intros r []|constructor|].
+  cbn [refs_of map app] in Hrefs.
+  (* parse_mutation succeeds *)
+  assert (Hpm : exists l, parse_mutation m = Some (l, vs)).
+  { unfold parse_mutation. rewrite Hpf. destruct (has_ref RId l0) eqn:Eid; [eauto|].
+    destruct (fill_defaults_succeeds (m_decl m) 0 l0) as (l1 & Hl1); [|rewrite Hl1; eauto].
+    intros j t Hj. cbn [Nat.add]. rewrite has_ref_refs, Hrefs.
+    rewrite has_ref_refs, Hrefs in Eid.
+    apply Bool.orb_prop in Hreq. destruct Hreq as [Hreq|Hreq]; [rewrite Hreq in Eid; discriminate|].
+    rewrite forallb_forall in Hreq. specialize (Hreq j).
+    rewrite Hj in Hreq. apply Hreq. apply in_seq. split; [lia|].
+    cbn [Nat.add]. apply nth_error_Some. rewrite Hj. discriminate. }
+  destruct Hpm as (l & Hpm).
+  destruct (parse_mutation_inv _ _ _ Hpm) as (Hnd & Hl).
+  unfold mutate_outcome. rewrite Hpm. unfold execute_mutation.
+  (* the parameters validate *)
+  destruct (validate_params_succeeds vs (m_params m) Hnd) as (ps' & Hps).
+  { intros x vt Hin. rewrite Forall_forall in Hvars. destruct (Hvars _ Hin) as (r & k & Hinr & Hk & Hvt).
+    cbn [fst snd] in *. specialize (Hfits _ Hinr). cbn [fst snd] in Hfits. rewrite Hk in Hfits.
+    cbn [value_fits] in Hfits. destruct (lookup x (m_params m)) as [p|]; [|discriminate].
+    exists p. split; [reflexivity|]. subst vt. apply param_fits_validates. exact Hfits. }
+  rewrite Hps.
+  (* every entry is Ok *)
+  assert (Hent : forall r k fv, In (r, k, fv) l ->
+            (is_sys_ref r = true -> uid_field fv ps' = OOk) /\
+            (is_sys_ref r = false -> assemble_field k fv ps' = OOk)).
+  { intros r k fv Hin. rewrite Forall_forall in Hl. destruct (Hl _ Hin) as [(Hk & (v & vs0 & vs1 & Hinv & Hpv) & Hx)|(i & t & n & He)].
+    - rewrite <- (fkind_sys _ _ _ Hk).
+      pose proof (Hfits _ Hinv) as Hf. cbn [fst snd] in Hf. rewrite Hk in Hf.
+      exact (entry_outcome m vs ps' r k fv v vs0 vs1 Hnd Hps Hk1 Hinv Hk Hf Hpv Hx).
+    - inversion He; subst. cbn [is_sys_ref]. split; intro; [discriminate|].
+      unfold assemble_field. cbn [value_of field_type]. destruct t; reflexivity. }
+  rewrite first_bad_ok.
+  - apply first_bad_ok. apply Forall_forall. intros o Ho. apply in_map_iff in Ho.
+    destruct Ho as ([[r k] fv] & Ho & Hin). apply filter_In in Hin. destruct Hin as [Hin Hs].
+    cbn [fst snd] in *. apply Bool.negb_true_iff in Hs. rewrite <- Ho. apply (Hent r k fv Hin). exact Hs.
+  - apply Forall_forall. intros o Ho. apply in_map_iff in Ho.
+    destruct Ho as ([[r k] fv] & Ho & Hin). cbn [snd] in Ho. rewrite <- Ho.
+    apply in_app_or in Hin. destruct Hin as [Hin|Hin]; apply filter_In in Hin; destruct Hin as [Hin Hs];
+      cbn [fst] in Hs; apply (Hent r k fv Hin); destruct r; try discriminate; reflexivity.
+Qed.
+
+(* ------------------------------------------------------------------------------------------ *)
+(** * thread pools: requests that do not panic leave the pool as it is; every probe is answered *)
+
+Lemma pool_run_ok : forall valid os live,
+  live <> 0%N ->
+  Forall2 (fun (v : bool) o => o <> OPanic /\ (v = true -> o = OOk)) valid os ->
+  steps_ok valid (pool_run live os) = true /\ pool_live live os = live.
+Proof.
+  intros valid os live Hlive H. induction H as [|v o valid os [Hnp Hv] H IH]; cbn [pool_run pool_live steps_ok]; [auto|].
+  unfold pool_step. destruct (N.eqb live 0) eqn:E; [apply N.eqb_eq in E; contradiction|].
+  destruct o; [| |contradiction]; cbn [outcome_code app fst steps_ok]; destruct IH as [IH1 IH2]; rewrite IH1, IH2.
+  - auto.
+  - destruct v; [specialize (Hv eq_refl); discriminate|auto].
+Qed.
+
+Lemma import_key_panics_iff : forall k pok, import_key k pok = OPanic <-> k = [].
+Proof.
+  intros k pok. destruct k as [|b k]; cbn [import_key]; [tauto|].
+  split; [|discriminate]. destruct (negb (N.eqb b key_type_ed25519)); [discriminate|].
+  destruct (negb (Nat.eqb (List.length (b :: k)) 33)); [discriminate|]. destruct pok; discriminate.
+Qed.
+
+Lemma key_then_sig_panics : forall k pok sl sok, key_then_sig k pok sl sok = OPanic -> k = [].
+Proof.
+  intros k pok sl sok H. unfold key_then_sig in H. destruct (import_key k pok) eqn:E.
+  - unfold verify_sig in H. destruct (negb (N.eqb sl 64)); [discriminate|]. destruct sok; discriminate.
+  - discriminate.
+  - apply import_key_panics_iff in E. exact E.
+Qed.
+
+Theorem verify_row_panics_only_in_k2 : forall r, verify_row r = OPanic -> k2_row r = true.
+Proof.
+  intros r H. destruct r as [ee js k pok sl sok|el ll k pok sl sok|k pok sl sok]; cbn [verify_row k2_row] in *.
+  - destruct ee; [discriminate|]. destruct js; try discriminate; apply key_then_sig_panics in H; subst; reflexivity.
+  - destruct (N.ltb max_edge_length (16 + el + ll + 16 + 8 + nlen k + sl)); [discriminate|].
+    destruct (N.eqb el 0); [discriminate|]. destruct (N.eqb ll 0); [discriminate|].
+    apply key_then_sig_panics in H. subst. reflexivity.
+  - apply key_then_sig_panics in H. subst. reflexivity.
+Qed.
+
+Lemma key_wellformed_imports : forall k pok, key_wellformed k pok = true -> import_key k pok = OOk.
+Proof.
+  intros k pok H. unfold key_wellformed in H. apply andb_prop in H. destruct H as [H Hp].
+  apply andb_prop in H. destruct H as [Hlen Hb]. destruct k as [|b k]; [discriminate|].
+  cbn [import_key]. unfold key_type_ed25519. rewrite Hb, Hlen, Hp. reflexivity.
+Qed.
+
+Lemma existsb_false_forall : forall A (f : A -> bool) l, existsb f l = false -> forall x, In x l -> f x = false.
+Proof.
+  intros A f l H x Hin. destruct (f x) eqn:E; [|reflexivity].
+  assert (existsb f l = true) by (apply existsb_exists; eauto). congruence.
+Qed.
+
+Lemma flag_nil : forall k b, flag k b = [] -> b = false.
+Proof. intros k [|]; cbn [flag]; [discriminate|reflexivity]. Qed.
+
+(* ------------------------------------------------------------------------------------------ *)
+(** * queries: the emitted statement skeleton is well formed (outside classes 3 and 4) *)
+
+Section cfield_induction.
+  Variable P : cfield -> Prop.
+  Hypothesis HScalar : forall s b d, P (CScalar s b d).
+  Hypothesis HJson : forall d, P (CJsonSel d).
+  Hypothesis HSub : forall key arr nl subs, Forall P subs -> P (CSub key arr nl subs).
+  Fixpoint cfield_ind' (c : cfield) : P c :=
+    match c with
+    | CScalar s b d => HScalar s b d
+    | CJsonSel d => HJson d
+    | CSub key arr nl subs =>
+        HSub key arr nl subs
+             ((fix go (l : list cfield) : Forall P l :=
+                 match l with
+                 | [] => Forall_nil P
+                 | x :: r => Forall_cons x (cfield_ind' x) (go r)
+                 end) subs)
+    end.
+End cfield_induction.
+
+Lemma balance_app : forall a b d,
+  balance d (a ++ b) = match balance d a with Some d' => balance d' b | None => None end.
+Proof.
+  induction a as [|t a IH]; intros b d; cbn [app balance]; [reflexivity|].
+  destruct t; try apply IH. destruct (Z.leb d 0); [reflexivity|apply IH].
+Qed.
+
+Definition good (ts : list tok) : Prop := forall d, 0 <= d -> balance d ts = Some d.
+
+Lemma good_nil : good [].
+Proof. intros d _. reflexivity. Qed.
+Lemma good_app : forall a b, good a -> good b -> good (a ++ b).
+Proof. intros a b Ha Hb d Hd. rewrite balance_app, (Ha d Hd). apply Hb. exact Hd. Qed.
+Lemma good_concat : forall ls, Forall good ls -> good (List.concat ls).
+Proof. induction 1 as [|a ls Ha Hls IH]; cbn [List.concat]; [apply good_nil|apply good_app; assumption]. Qed.
+Lemma good_paren : forall a, good a -> good (TL :: a ++ [TR]).
+Proof.
+  intros a Ha d Hd. cbn [balance]. rewrite balance_app, (Ha (d + 1)) by lia. cbn [balance].
+  replace (Z.leb (d + 1) 0) with false by (symmetry; apply Z.leb_gt; lia).
+  f_equal. lia.
+Qed.
+Lemma good_sel : forall a, good a -> good (TSel :: a).
+Proof. intros a Ha d Hd. cbn [balance]. apply Ha. exact Hd. Qed.
+Lemma good_x : forall a, good a -> good (TX :: a).
+Proof. intros a Ha d Hd. cbn [balance]. apply Ha. exact Hd. Qed.
+Lemma good_al : forall x a, good a -> good (TAl x :: a).
+Proof. intros x a Ha d Hd. cbn [balance]. apply Ha. exact Hd. Qed.
+
+(* get_sub_entity_query *)
+Definition sub_body (parent key : ident) (A B : list tok) : list tok :=
+  [TSel; TX; TL] ++ A ++ [TR; TX; TAl key; TX; TAl key; TX; TAl key; TX; TAl parent; TX] ++ B ++ [TX].
+
+Lemma good_sub_body : forall parent key A B, good A -> good B -> good (sub_body parent key A B).
+Proof.
+  intros parent key A B HA HB. unfold sub_body. cbn [app].
+  apply good_sel, good_x.
+  replace (TL :: A ++ TR :: TX :: TAl key :: TX :: TAl key :: TX :: TAl key :: TX :: TAl parent :: TX :: B ++ [TX])
+    with ((TL :: A ++ [TR]) ++ (TX :: TAl key :: TX :: TAl key :: TX :: TAl key :: TX :: TAl parent :: TX :: B ++ [TX])).
+  2:{ cbn [app]. rewrite <- app_assoc. reflexivity. }
+  apply good_app; [apply good_paren; exact HA|].
+  repeat first [apply good_x | apply good_al]. apply good_app; [exact HB|]. apply good_x, good_nil.
+Qed.
+
+Lemma emit_sub_eq : forall parent key arr nl subs,
+  emit parent (CSub key arr nl subs) =
+  let body := sub_body parent key (List.concat (map fst (map (emit key) subs))) (List.concat (map snd (map (emit key) subs))) in
+  ((if arr then [TX; TL; TSel; TX; TL; TX; TR; TX; TL] ++ body ++ [TR; TR] else [TX; TL] ++ body ++ [TR; TX]),
+   (if nl then [] else [TX; TL] ++ body ++ [TR])).
+Proof. reflexivity. Qed.
+
+Theorem emit_balanced : forall c, has_json_default c = false ->
+  forall parent, good (fst (emit parent c)) /\ good (snd (emit parent c)).
+Proof.
+  induction c as [s b d|d|key arr nl subs IH] using cfield_ind'; intros Hj parent.
+  - destruct s, b, d; cbn [emit fst snd]; split; try apply good_nil;
+      repeat first [apply good_x | apply good_al | apply good_nil
+                   | apply (good_paren [TX] (good_x _ good_nil))
+                   | apply (good_paren [TAl parent; TX] (good_al _ _ (good_x _ good_nil)))].
+  - cbn [has_json_default] in Hj. subst d. cbn [emit fst snd]. split; [apply good_x|]; apply good_nil.
+  - cbn [has_json_default] in Hj. rewrite emit_sub_eq. cbv zeta.
+    assert (HA : good (List.concat (map fst (map (emit key) subs))) /\ good (List.concat (map snd (map (emit key) subs)))).
+    { split; apply good_concat; rewrite map_map; apply Forall_map;
+        rewrite Forall_forall in IH |- *; intros x Hx;
+        apply (IH x Hx (existsb_false_forall _ _ _ Hj x Hx) key). }
+    destruct HA as [HA HB]. pose proof (good_sub_body parent key _ _ HA HB) as Hbody.
+    cbn [fst snd]. split.
+    + destruct arr.
+      * cbn [app]. apply good_x.
+        match goal with |- good (TL :: ?rest) =>
+          replace rest with ((TSel :: TX :: TL :: [TX] ++ [TR]) ++ TX :: (TL :: sub_body parent key
+             (List.concat (map fst (map (emit key) subs))) (List.concat (map snd (map (emit key) subs))) ++ [TR]) ++ [TR]) end.
+        2:{ cbn [app]. rewrite <- !app_assoc. reflexivity. }
+        replace (TL :: ((TSel :: TX :: TL :: [TX] ++ [TR]) ++ TX :: (TL :: sub_body parent key
+             (List.concat (map fst (map (emit key) subs))) (List.concat (map snd (map (emit key) subs))) ++ [TR]) ++ [TR]))
+          with (TL :: ((TSel :: TX :: TL :: [TX] ++ [TR]) ++ TX :: (TL :: sub_body parent key
+             (List.concat (map fst (map (emit key) subs))) (List.concat (map snd (map (emit key) subs))) ++ [TR])) ++ [TR]).
+        2:{ cbn [app]. rewrite <- !app_assoc. reflexivity. }
+        apply good_paren. apply good_app.
+        -- apply good_sel, good_x, good_paren, good_x, good_nil.
+        -- apply good_x, good_paren. exact Hbody.
+      * cbn [app].  apply good_x.
+        replace (TL :: sub_body parent key (List.concat (map fst (map (emit key) subs))) (List.concat (map snd (map (emit key) subs))) ++ [TR; TX])
+          with ((TL :: sub_body parent key (List.concat (map fst (map (emit key) subs))) (List.concat (map snd (map (emit key) subs))) ++ [TR]) ++ [TX]).
+        2:{ cbn [app]. rewrite <- app_assoc. reflexivity. }
+        apply good_app; [apply good_paren; exact Hbody|apply good_x, good_nil].
+    + destruct nl; [apply good_nil|]. cbn [app]. apply good_x, good_paren. exact Hbody.
+Qed.
+
+Lemma forallb_concat : forall A (f : A -> bool) ls,
+  Forall (fun l => forallb f l = true) ls -> forallb f (List.concat ls) = true.
+Proof.
+  induction 1 as [|a ls Ha Hls IH]; cbn [List.concat]; [reflexivity|]. rewrite forallb_app, Ha, IH. reflexivity.
+Qed.
+
+Theorem emit_aliases_ok : forall c parent,
+  alias_ok parent = true -> forallb alias_ok (aliases_of c) = true ->
+  forallb tok_alias_ok (fst (emit parent c)) = true /\ forallb tok_alias_ok (snd (emit parent c)) = true.
+Proof.
+  induction c as [s b d|d|key arr nl subs IH] using cfield_ind'; intros parent Hp Hal.
+  - destruct s, b, d; cbn [emit fst snd forallb tok_alias_ok]; rewrite ?Hp; auto.
+  - destruct d; cbn [emit fst snd forallb tok_alias_ok]; auto.
+  - cbn [aliases_of forallb] in Hal. apply andb_prop in Hal. destruct Hal as [Hkey Hsubs].
+    rewrite emit_sub_eq. cbv zeta.
+    assert (HA : forallb tok_alias_ok (List.concat (map fst (map (emit key) subs))) = true
+                 /\ forallb tok_alias_ok (List.concat (map snd (map (emit key) subs))) = true).
+    { split; apply forallb_concat; rewrite map_map; apply Forall_map;
+        rewrite Forall_forall in IH |- *; intros x Hx; apply (IH x Hx key Hkey);
+        rewrite forallb_forall in Hsubs |- *; intros a Ha; apply Hsubs; apply in_flat_map; eauto. }
+    destruct HA as [HA HB].
+    assert (Hbody : forallb tok_alias_ok (sub_body parent key (List.concat (map fst (map (emit key) subs)))
+                                                   (List.concat (map snd (map (emit key) subs)))) = true).
+    { unfold sub_body. rewrite !forallb_app, HA, HB. cbn [forallb tok_alias_ok]. rewrite Hkey, Hp. reflexivity. }
+    cbn [fst snd]. split.
+    + destruct arr; rewrite !forallb_app, Hbody; reflexivity.
+    + destruct nl; [reflexivity|]. rewrite !forallb_app, Hbody. reflexivity.
+Qed.
+
+Theorem entity_wf : forall c,
+  k3_entity c = false -> k4_entity c = false -> wf_sql (emit_entity c) = true.
+Proof.
+  intros c H3 H4. unfold k3_entity in H3. apply Bool.negb_false_iff in H3.
+  cbn [forallb] in H3. apply andb_prop in H3. destruct H3 as [Ha Hsub].
+  unfold k4_entity in H4.
+  assert (HAB : (good (List.concat (map fst (map (emit (ce_alias c)) (ce_fields c))))
+                 /\ good (List.concat (map snd (map (emit (ce_alias c)) (ce_fields c)))))
+                /\ (forallb tok_alias_ok (List.concat (map fst (map (emit (ce_alias c)) (ce_fields c)))) = true
+                    /\ forallb tok_alias_ok (List.concat (map snd (map (emit (ce_alias c)) (ce_fields c)))) = true)).
+  { split; split.
+    1,2: apply good_concat; rewrite map_map; apply Forall_map; apply Forall_forall; intros x Hx;
+         apply (emit_balanced x (existsb_false_forall _ _ _ H4 x Hx) (ce_alias c)).
+    1,2: apply forallb_concat; rewrite map_map; apply Forall_map; apply Forall_forall; intros x Hx;
+         apply (emit_aliases_ok x (ce_alias c) Ha);
+         rewrite forallb_forall in Hsub |- *; intros a Hin; apply Hsub; apply in_flat_map; eauto. }
+  destruct HAB as [[HA HB] [HA' HB']].
+  unfold wf_sql. apply andb_true_intro. split.
+  - unfold balanced, emit_entity. cbv zeta.
+    set (A := List.concat (map fst (map (emit (ce_alias c)) (ce_fields c)))) in *.
+    set (B := List.concat (map snd (map (emit (ce_alias c)) (ce_fields c)))) in *.
+    assert (Hg : good ([TSel; TX; TL; TX; TR; TX; TL] ++ [TSel; TX; TL] ++ A ++ [TR; TX; TAl (ce_alias c)]
+                       ++ match ce_search c with Some _ => [TX; TAl (ce_alias c); TX] | None => [] end
+                       ++ [TX; TAl (ce_alias c); TX] ++ B
+                       ++ match ce_search c with Some _ => [TX] | None => [] end ++ [TR])).
+    { cbn [app]. apply good_sel, good_x.
+      replace (TL :: TX :: TR :: TX :: TL :: TSel :: TX :: TL :: A ++ TR :: TX :: TAl (ce_alias c) ::
+                 match ce_search c with Some _ => [TX; TAl (ce_alias c); TX] | None => [] end ++
+                 TX :: TAl (ce_alias c) :: TX :: B ++ match ce_search c with Some _ => [TX] | None => [] end ++ [TR])
+        with ((TL :: [TX] ++ [TR]) ++ TX :: (TL :: (TSel :: TX :: (TL :: A ++ [TR]) ++ TX :: TAl (ce_alias c) ::
+                 match ce_search c with Some _ => [TX; TAl (ce_alias c); TX] | None => [] end ++
+                 TX :: TAl (ce_alias c) :: TX :: B ++ match ce_search c with Some _ => [TX] | None => [] end) ++ [TR])).
+      2:{ cbn [app]. rewrite <- !app_assoc. cbn [app]. destruct (ce_search c); cbn [app]; rewrite <- ?app_assoc; reflexivity. }
+      apply good_app; [apply good_paren, good_x, good_nil|]. apply good_x, good_paren, good_sel, good_x.
+      apply good_app; [apply good_paren; exact HA|]. apply good_x, good_al.
+      apply good_app; [destruct (ce_search c); [apply good_x, good_al, good_x, good_nil|apply good_nil]|].
+      apply good_x, good_al, good_x. apply good_app; [exact HB|]. destruct (ce_search c); [apply good_x|]; apply good_nil. }
+    rewrite (Hg 0) by lia. reflexivity.
+  - unfold emit_entity. cbv zeta. rewrite !forallb_app, HA', HB'. cbn [forallb tok_alias_ok]. rewrite Ha.
+    destruct (ce_search c); cbn [forallb tok_alias_ok]; rewrite ?Ha; reflexivity.
+Qed.
+
+(* ------------------------------------------------------------------------------------------ *)
+(** * queries: a valid request resolves *)
+
+Section rfield_induction.
+  Variable P : rfield -> Prop.
+  Hypothesis HNamed : forall a n, P (RNamed a n).
+  Hypothesis HJson : forall a n, P (RJson a n).
+  Hypothesis HSub : forall a n subs, Forall P subs -> P (RSub a n subs).
+  Fixpoint rfield_ind' (f : rfield) : P f :=
+    match f with
+    | RNamed a n => HNamed a n
+    | RJson a n => HJson a n
+    | RSub a n subs =>
+        HSub a n subs
+             ((fix go (l : list rfield) : Forall P l :=
+                 match l with
+                 | [] => Forall_nil P
+                 | x :: r => Forall_cons x (rfield_ind' x) (go r)
+                 end) subs)
+    end.
+End rfield_induction.
+
+Lemma list_eqb_eq : forall (l1 l2 : list N), list_eqb N.eqb l1 l2 = true <-> l1 = l2.
+Proof.
+  induction l1 as [|a l1 IH]; destruct l2 as [|b l2]; cbn [list_eqb]; split; intro H; try discriminate; try reflexivity.
+  - apply andb_prop in H. destruct H as [H1 H2]. apply N.eqb_eq in H1. apply IH in H2. subst. reflexivity.
+  - inversion H; subst. rewrite N.eqb_refl. cbn [andb]. apply IH. reflexivity.
+Qed.
+Lemma ident_eqb_eq : forall a b, ident_eqb a b = true <-> a = b.
+Proof. apply list_eqb_eq. Qed.
+Lemma ident_eqb_refl : forall a, ident_eqb a a = true.
+Proof. intro a. apply ident_eqb_eq. reflexivity. Qed.
+
+Lemma existsb_ident_false : forall k l, existsb (ident_eqb k) l = false -> ~ In k l.
+Proof.
+  intros k l H Hin. pose proof (existsb_false_forall _ _ _ H k Hin) as E. rewrite ident_eqb_refl in E. discriminate.
+Qed.
+Lemma notin_existsb_ident : forall k l, ~ In k l -> existsb (ident_eqb k) l = false.
+Proof.
+  intros k l H. destruct (existsb (ident_eqb k) l) eqn:E; [|reflexivity].
+  apply existsb_exists in E. destruct E as (x & Hx & Heq). apply ident_eqb_eq in Heq. subst. contradiction.
+Qed.
+
+Lemma resolve_go_eq : forall dm te subs keys,
+  (fix go (l : list rfield) (keys : list ident) {struct l} : option (list cfield) :=
+     match l with
+     | [] => Some []
+     | x :: r =>
+         match resolve_field dm te x with
+         | None => None
+         | Some (key, c) =>
+             if existsb (ident_eqb key) keys then None
+             else match go r (key :: keys) with
+                  | Some cs => Some (c :: cs)
+                  | None => None
+                  end
+         end
+     end) subs keys = resolve_list dm te subs keys.
+Proof.
+  intros dm te. induction subs as [|x r IH]; intros keys; cbn [resolve_list]; [reflexivity|].
+  destruct (resolve_field dm te x) as [[key c]|]; [|reflexivity].
+  destruct (existsb (ident_eqb key) keys); [reflexivity|]. rewrite IH. reflexivity.
+Qed.
+
+Lemma resolve_sub_eq : forall dm e alias name subs,
+  resolve_field dm e (RSub alias name subs) =
+  if negb (alias_admissible e alias) then None
+  else match get_field e name with
+       | Some (FUserF (KRef arr t nl)) =>
+           match nth_error dm t with
+           | None => None
+           | Some te => match resolve_list dm te subs [] with
+                        | Some cs => Some (field_key alias name, CSub (field_key alias name) arr nl cs)
+                        | None => None end
+           end
+       | _ => None
+       end.
+Proof.
+  intros. cbn [resolve_field]. destruct (negb (alias_admissible e alias)); [reflexivity|].
+  destruct (get_field e name) as [[[js d|arr t nl]| |]|]; try reflexivity.
+  destruct (nth_error dm t); [|reflexivity]. rewrite resolve_go_eq. reflexivity.
+Qed.
+
+Definition resolves (dm : dmodel) (f : rfield) : Prop :=
+  forall e, field_valid dm e f = true -> exists c, resolve_field dm e f = Some (rkey f, c).
+
+Lemma list_resolves : forall dm l, Forall (resolves dm) l ->
+  forall e keys, forallb (field_valid dm e) l = true -> nodup_idents (map rkey l) = true ->
+  (forall k, In k keys -> ~ In k (map rkey l)) ->
+  exists cs, resolve_list dm e l keys = Some cs.
+Proof.
+  intros dm l H. induction H as [|f l Hf Hl IH]; intros e keys Hv Hnd Hk; cbn [resolve_list]; [eauto|].
+  cbn [forallb] in Hv. apply andb_prop in Hv. destruct Hv as [Hvf Hvl].
+  cbn [map nodup_idents] in Hnd. apply andb_prop in Hnd. destruct Hnd as [Hn Hnd].
+  destruct (Hf e Hvf) as (c & Hc). rewrite Hc.
+  rewrite notin_existsb_ident.
+  2:{ intro Hin. apply (Hk _ Hin). left. reflexivity. }
+  destruct (IH e (rkey f :: keys) Hvl Hnd) as (cs & Hcs).
+  { intros k [Hk1|Hk1].
+    - subst k. apply existsb_ident_false. apply Bool.negb_true_iff in Hn. exact Hn.
+    - intro Hin. apply (Hk _ Hk1). right. exact Hin. }
+  rewrite Hcs. eauto.
+Qed.
+
+Theorem field_valid_resolves : forall dm f, resolves dm f.
+Proof.
+  intros dm f. induction f as [a n|a n|a n subs IH] using rfield_ind'; intros e Hv.
+  - cbn [field_valid] in Hv. apply andb_prop in Hv. destruct Hv as [Ha Hg].
+    cbn [resolve_field rkey]. rewrite Ha. cbn [negb].
+    destruct (get_field e n) as [[[js d|arr t nl]|b|]|]; try discriminate; eauto.
+  - cbn [field_valid] in Hv. cbn [resolve_field rkey].
+    destruct (get_field e n) as [[[[|] d|arr t nl]|b|]|]; try discriminate; eauto.
+  - cbn [field_valid] in Hv. apply andb_prop in Hv. destruct Hv as [Ha Hg].
+    rewrite resolve_sub_eq. rewrite Ha. cbn [negb rkey].
+    destruct (get_field e n) as [[[js d|arr t nl]|b|]|]; try discriminate.
+    destruct (nth_error dm t) as [te|]; [|discriminate].
+    apply andb_prop in Hg. destruct Hg as [Hsubs Hnd].
+    destruct (list_resolves dm subs IH te [] Hsubs Hnd) as (cs & Hcs); [intros k []|].
+    rewrite Hcs. eauto.
+Qed.
+
+Theorem entity_valid_resolves : forall dm q, entity_valid dm q = true -> exists c, resolve_entity dm q = Some c.
+Proof.
+  intros dm q H. unfold entity_valid in H. apply andb_prop in H. destruct H as [H Hconf].
+  apply andb_prop in H. destruct H as [Hal Hent]. unfold resolve_entity.
+  apply Bool.negb_true_iff in Hal. rewrite Hal.
+  destruct (find_entity dm (re_ns q) (re_name q)) as [e|]; [|discriminate].
+  apply andb_prop in Hent. destruct Hent as [Hf Hnd].
+  destruct (list_resolves dm (re_fields q)) with (e := e) (keys := @nil ident) as (cs & Hcs); auto.
+  { apply Forall_forall. intros f _. apply field_valid_resolves. }
+  rewrite Hcs. apply Bool.negb_true_iff in Hconf. rewrite Hconf. eauto.
+Qed.
+
+Theorem query_valid_resolves : forall dm qs names,
+  forallb (entity_valid dm) qs = true -> nodup_idents (map aliased_name qs) = true ->
+  (forall k, In k names -> ~ In k (map aliased_name qs)) ->
+  exists cs, resolve_query dm qs names = Some cs.
+Proof.
+  intros dm. induction qs as [|q qs IH]; intros names Hv Hnd Hk; cbn [resolve_query]; [eauto|].
+  cbn [forallb] in Hv. apply andb_prop in Hv. destruct Hv as [Hq Hqs].
+  cbn [map nodup_idents] in Hnd. apply andb_prop in Hnd. destruct Hnd as [Hn Hnd].
+  destruct (entity_valid_resolves dm q Hq) as (c & Hc). rewrite Hc.
+  rewrite notin_existsb_ident.
+  2:{ intro Hin. apply (Hk _ Hin). left. reflexivity. }
+  destruct (IH (aliased_name q :: names) Hqs Hnd) as (cs & Hcs).
+  { intros k [Hk1|Hk1].
+    - subst k. apply existsb_ident_false. apply Bool.negb_true_iff in Hn. exact Hn.
+    - intro Hin. apply (Hk _ Hk1). right. exact Hin. }
+  rewrite Hcs. eauto.
+Qed.
+
+(* valid_executes (partial: the engine's verdict is the modelled skeleton check) *)
+Theorem valid_query_executes : forall dm qs,
+  query_valid dm qs = true -> known_C14 (CQuery dm qs) = [] -> query_outcome dm qs = OOk.
+Proof.
+  intros dm qs Hv Hk. unfold query_valid in Hv. apply andb_prop in Hv. destruct Hv as [Hv Hnd].
+  destruct (query_valid_resolves dm qs [] Hv Hnd) as (cs & Hcs); [intros k []|].
+  unfold query_outcome. cbn [known_C14] in Hk. rewrite Hcs in *.
+  apply app_eq_nil in Hk. destruct Hk as [H3 Hk]. apply app_eq_nil in Hk. destruct Hk as [H4 Hk].
+  apply app_eq_nil in Hk. destruct Hk as [H5 H6].
+  apply flag_nil in H3, H4, H5, H6.
+  replace (forallb entity_executes cs) with true; [reflexivity|]. symmetry. apply forallb_forall. intros c Hc.
+  unfold entity_executes.
+  rewrite (entity_wf c (existsb_false_forall _ _ _ H3 c Hc) (existsb_false_forall _ _ _ H4 c Hc)).
+  pose proof (existsb_false_forall _ _ _ H5 c Hc) as E5. pose proof (existsb_false_forall _ _ _ H6 c Hc) as E6.
+  unfold k5_entity in E5. unfold k6_entity in E6. apply Bool.negb_false_iff in E5, E6. rewrite E5, E6. reflexivity.
+Qed.
+
+(* ------------------------------------------------------------------------------------------ *)
+(** * statement size: parentheses pair up (outside class 4), SELECTs are linear in the request
+      (outside class 7) *)
+
+Definition sel3 (x : c3) : N := fst (fst x).
+Definition lp3 (x : c3) : N := snd (fst x).
+Definition rp3 (x : c3) : N := snd x.
+Definition sumN (l : list N) : N := fold_right N.add 0%N l.
+
+Lemma c3_add_proj : forall a b,
+  sel3 (c3_add a b) = (sel3 a + sel3 b)%N /\ lp3 (c3_add a b) = (lp3 a + lp3 b)%N /\ rp3 (c3_add a b) = (rp3 a + rp3 b)%N.
+Proof. intros [[a1 a2] a3] [[b1 b2] b3]. cbn. auto. Qed.
+
+Lemma c3_sum_proj : forall l,
+  sel3 (c3_sum l) = sumN (map sel3 l) /\ lp3 (c3_sum l) = sumN (map lp3 l) /\ rp3 (c3_sum l) = sumN (map rp3 l).
+Proof.
+  induction l as [|a l IH]; cbn [c3_sum fold_right map sumN]; [cbn; auto|].
+  fold (c3_sum l). destruct (c3_add_proj a (c3_sum l)) as (H1 & H2 & H3). destruct IH as (I1 & I2 & I3).
+  rewrite H1, H2, H3, I1, I2, I3. auto.
+Qed.
+
+Lemma sumN_ext : forall A (f g : A -> N) l, (forall x, In x l -> f x = g x) -> sumN (map f l) = sumN (map g l).
+Proof.
+  induction l as [|a l IH]; intros H; cbn [map sumN fold_right]; [reflexivity|].
+  fold (sumN (map f l)). fold (sumN (map g l)). rewrite (H a (or_introl eq_refl)), IH; [reflexivity|].
+  intros x Hx. apply H. right. exact Hx.
+Qed.
+
+Lemma sumN_le : forall A (f g : A -> N) l, (forall x, In x l -> (f x <= g x)%N) -> (sumN (map f l) <= sumN (map g l))%N.
+Proof.
+  induction l as [|a l IH]; intros H; cbn [map sumN fold_right]; [lia|].
+  fold (sumN (map f l)). fold (sumN (map g l)).
+  pose proof (H a (or_introl eq_refl)). assert (sumN (map f l) <= sumN (map g l))%N by (apply IH; intros; apply H; right; assumption). lia.
+Qed.
+
+Lemma sumN_zero : forall A (f : A -> N) l, (forall x, In x l -> f x = 0%N) -> sumN (map f l) = 0%N.
+Proof.
+  induction l as [|a l IH]; intros H; cbn [map sumN fold_right]; [reflexivity|].
+  fold (sumN (map f l)). rewrite (H a (or_introl eq_refl)), IH; [reflexivity|]. intros; apply H; right; assumption.
+Qed.
+
+Lemma sumN_scale : forall A (f : A -> N) k l, sumN (map (fun x => k * f x)%N l) = (k * sumN (map f l))%N.
+Proof.
+  induction l as [|a l IH]; cbn [map sumN fold_right]; [lia|].
+  fold (sumN (map f l)). fold (sumN (map (fun x => (k * f x)%N) l)). rewrite IH. lia.
+Qed.
+
+Lemma counts_sub_eq : forall key arr nl subs,
+  counts (CSub key arr nl subs) =
+  let body := c3_add (1, 1, 1)%N (c3_add (c3_sum (map fst (map counts subs))) (c3_sum (map snd (map counts subs)))) in
+  ((if arr then c3_add (1, 3, 3)%N body else c3_add (0, 1, 1)%N body), (if nl then (0, 0, 0)%N else c3_add (0, 1, 1)%N body)).
+Proof. reflexivity. Qed.
+
+Theorem counts_parens : forall c, has_json_default c = false ->
+  lp3 (fst (counts c)) = rp3 (fst (counts c)) /\ lp3 (snd (counts c)) = rp3 (snd (counts c)).
+Proof.
+  induction c as [s b d|d|key arr nl subs IH] using cfield_ind'; intros Hj.
+  - destruct s, b, d; cbn; auto.
+  - cbn [has_json_default] in Hj. subst. cbn. auto.
+  - cbn [has_json_default] in Hj. rewrite counts_sub_eq. cbv zeta.
+    set (A := c3_sum (map fst (map counts subs))). set (B := c3_sum (map snd (map counts subs))).
+    assert (HA : lp3 A = rp3 A).
+    { unfold A. destruct (c3_sum_proj (map fst (map counts subs))) as (_ & H2 & H3). rewrite H2, H3, !map_map.
+      apply sumN_ext. intros x Hx. rewrite Forall_forall in IH. apply (IH x Hx (existsb_false_forall _ _ _ Hj x Hx)). }
+    assert (HB : lp3 B = rp3 B).
+    { unfold B. destruct (c3_sum_proj (map snd (map counts subs))) as (_ & H2 & H3). rewrite H2, H3, !map_map.
+      apply sumN_ext. intros x Hx. rewrite Forall_forall in IH. apply (IH x Hx (existsb_false_forall _ _ _ Hj x Hx)). }
+    assert (Hbody : lp3 (c3_add (1, 1, 1)%N (c3_add A B)) = rp3 (c3_add (1, 1, 1)%N (c3_add A B))).
+    { destruct (c3_add_proj (1, 1, 1)%N (c3_add A B)) as (_ & H2 & H3). destruct (c3_add_proj A B) as (_ & H4 & H5).
+      rewrite H2, H3, H4, H5, HA, HB. reflexivity. }
+    cbn [fst snd]. split.
+    + destruct arr; match goal with |- lp3 (c3_add ?k ?b) = _ => destruct (c3_add_proj k b) as (_ & H2 & H3) end;
+        rewrite H2, H3, Hbody; reflexivity.
+    + destruct nl; [reflexivity|]. match goal with |- lp3 (c3_add ?k ?b) = _ => destruct (c3_add_proj k b) as (_ & H2 & H3) end.
+      rewrite H2, H3, Hbody. reflexivity.
+Qed.
+
+Fixpoint csubs (c : cfield) : N :=
+  match c with CSub _ _ _ subs => (1 + sumN (map csubs subs))%N | _ => 0%N end.
+Definition tot (c : cfield) : N := (sel3 (fst (counts c)) + sel3 (snd (counts c)))%N.
+
+Lemma counts_sel_sub : forall key arr nl subs,
+  sel3 (fst (counts (CSub key arr nl subs))) = ((if arr then 1 else 0) + (1 + sumN (map tot subs)))%N /\
+  sel3 (snd (counts (CSub key arr nl subs))) = (if nl then 0 else 1 + sumN (map tot subs))%N.
+Proof.
+  intros. rewrite counts_sub_eq. cbv zeta.
+  set (A := c3_sum (map fst (map counts subs))). set (B := c3_sum (map snd (map counts subs))).
+  assert (Hbody : sel3 (c3_add (1, 1, 1)%N (c3_add A B)) = (1 + sumN (map tot subs))%N).
+  { destruct (c3_add_proj (1, 1, 1)%N (c3_add A B)) as (H1 & _). destruct (c3_add_proj A B) as (H2 & _).
+    rewrite H1, H2. unfold A, B.
+    destruct (c3_sum_proj (map fst (map counts subs))) as (H3 & _). destruct (c3_sum_proj (map snd (map counts subs))) as (H4 & _).
+    rewrite H3, H4, !map_map. cbn [sel3 fst]. f_equal. unfold tot.
+    clear. induction subs as [|x r IH]; cbn [map sumN fold_right]; [reflexivity|].
+    fold (sumN (map (fun x0 => sel3 (fst (counts x0))) r)). fold (sumN (map (fun x0 => sel3 (snd (counts x0))) r)).
+    fold (sumN (map (fun c => (sel3 (fst (counts c)) + sel3 (snd (counts c)))%N) r)). lia. }
+  cbn [fst snd]. split.
+  - destruct arr; match goal with |- sel3 (c3_add ?k ?b) = _ => destruct (c3_add_proj k b) as (H1 & _) end; rewrite H1, Hbody; cbn [sel3 fst]; lia.
+  - destruct nl; [reflexivity|]. match goal with |- sel3 (c3_add ?k ?b) = _ => destruct (c3_add_proj k b) as (H1 & _) end.
+    rewrite H1, Hbody. cbn [sel3 fst]. lia.
+Qed.
+
+Lemma tot_nn_free : forall c, has_nn c = false -> sel3 (snd (counts c)) = 0%N /\ (tot c <= 2 * csubs c)%N.
+Proof.
+  induction c as [s b d|d|key arr nl subs IH] using cfield_ind'; intros Hn.
+  - destruct s, b, d; cbn; split; lia.
+  - destruct d; cbn; split; lia.
+  - cbn [has_nn] in Hn. apply Bool.orb_false_elim in Hn. destruct Hn as [Hnl Hsubs].
+    apply Bool.negb_false_iff in Hnl. subst nl.
+    destruct (counts_sel_sub key arr true subs) as (H1 & H2). unfold tot. rewrite H1, H2. cbn [csubs].
+    split; [reflexivity|].
+    assert (sumN (map tot subs) <= sumN (map (fun x => 2 * csubs x)%N subs))%N.
+    { apply sumN_le. intros x Hx. rewrite Forall_forall in IH. apply (IH x Hx (existsb_false_forall _ _ _ Hsubs x Hx)). }
+    rewrite sumN_scale in H. destruct arr; lia.
+Qed.
+
+Theorem tot_linear : forall c, nn_nested c = false -> (tot c <= 4 * csubs c)%N.
+Proof.
+  induction c as [s b d|d|key arr nl subs IH] using cfield_ind'; intros Hn.
+  - destruct s, b, d; cbn; lia.
+  - destruct d; cbn; lia.
+  - cbn [nn_nested] in Hn. apply Bool.orb_false_elim in Hn. destruct Hn as [Hhere Hsubs].
+    destruct (counts_sel_sub key arr nl subs) as (H1 & H2). unfold tot. rewrite H1, H2. cbn [csubs].
+    destruct nl; cbn [negb andb] in Hhere.
+    + assert (sumN (map tot subs) <= sumN (map (fun x => 4 * csubs x)%N subs))%N.
+      { apply sumN_le. intros x Hx. rewrite Forall_forall in IH. apply (IH x Hx (existsb_false_forall _ _ _ Hsubs x Hx)). }
+      rewrite sumN_scale in H. destruct arr; lia.
+    + assert (sumN (map tot subs) <= sumN (map (fun x => 2 * csubs x)%N subs))%N.
+      { apply sumN_le. intros x Hx. apply tot_nn_free. apply (existsb_false_forall _ _ _ Hhere x Hx). }
+      rewrite sumN_scale in H. destruct arr; lia.
+Qed.
+
+Definition keeps_subs (dm : dmodel) (f : rfield) : Prop :=
+  forall e k c, resolve_field dm e f = Some (k, c) -> csubs c = count_subs f.
+
+Lemma resolve_list_csubs : forall dm l, Forall (keeps_subs dm) l ->
+  forall e keys cs, resolve_list dm e l keys = Some cs -> sumN (map csubs cs) = sumN (map count_subs l).
+Proof.
+  intros dm l H. induction H as [|f l Hf Hl IH]; intros e keys cs Hr; cbn [resolve_list] in Hr.
+  - inversion Hr. reflexivity.
+  - destruct (resolve_field dm e f) as [[key c]|] eqn:Ef; [|discriminate].
+    destruct (existsb (ident_eqb key) keys); [discriminate|].
+    destruct (resolve_list dm e l (key :: keys)) as [cs'|] eqn:El; [|discriminate]. inversion Hr; subst.
+    cbn [map sumN fold_right]. fold (sumN (map csubs cs')). fold (sumN (map count_subs l)).
+    rewrite (Hf e key c Ef), (IH e _ _ El). reflexivity.
+Qed.
+
+Lemma resolve_field_csubs : forall dm f, keeps_subs dm f.
+Proof.
+  intros dm f. induction f as [a n|a n|a n subs IH] using rfield_ind'; intros e k c Hr.
+  - cbn [resolve_field] in Hr. destruct (negb (alias_admissible e a)); [discriminate|].
+    destruct (get_field e n) as [[[js d|arr t nl]|b|]|]; inversion Hr; reflexivity.
+  - cbn [resolve_field] in Hr. destruct (get_field e n) as [[[[|] d|arr t nl]|b|]|]; inversion Hr; reflexivity.
+  - rewrite resolve_sub_eq in Hr. destruct (negb (alias_admissible e a)); [discriminate|].
+    destruct (get_field e n) as [[[js d|arr t nl]|b|]|]; try discriminate.
+    destruct (nth_error dm t) as [te|]; [|discriminate].
+    destruct (resolve_list dm te subs []) as [cs|] eqn:El; [|discriminate]. inversion Hr; subst.
+    cbn [csubs count_subs]. rewrite (resolve_list_csubs dm subs IH te [] cs El). reflexivity.
+Qed.
+
+Lemma sum_tot_split : forall l,
+  (sumN (map (fun x => sel3 (fst (counts x))) l) + sumN (map (fun x => sel3 (snd (counts x))) l) = sumN (map tot l))%N.
+Proof.
+  unfold tot. induction l as [|x r IH]; cbn [map sumN fold_right]; [reflexivity|].
+  fold (sumN (map (fun x0 => sel3 (fst (counts x0))) r)). fold (sumN (map (fun x0 => sel3 (snd (counts x0))) r)).
+  fold (sumN (map (fun c => (sel3 (fst (counts c)) + sel3 (snd (counts c)))%N) r)). lia.
+Qed.
+
+Theorem size_spec : forall dm q ce,
+  resolve_entity dm q = Some ce ->
+  (k4_entity ce = false -> lp3 (counts_entity ce) = rp3 (counts_entity ce)) /\
+  (k7_entity ce = false -> (sel3 (counts_entity ce) <= select_bound q)%N).
+Proof.
+  intros dm q ce Hr. unfold counts_entity.
+  set (A := c3_sum (map fst (map counts (ce_fields ce)))). set (B := c3_sum (map snd (map counts (ce_fields ce)))).
+  destruct (c3_add_proj (2, 3, 3)%N (c3_add A B)) as (H1 & H2 & H3). destruct (c3_add_proj A B) as (H4 & H5 & H6).
+  destruct (c3_sum_proj (map fst (map counts (ce_fields ce)))) as (S1 & S2 & S3).
+  destruct (c3_sum_proj (map snd (map counts (ce_fields ce)))) as (T1 & T2 & T3).
+  split.
+  - intro Hk. unfold k4_entity in Hk. rewrite H2, H3, H5, H6. unfold A, B. rewrite S2, S3, T2, T3, !map_map.
+    rewrite (sumN_ext _ (fun x => lp3 (fst (counts x))) (fun x => rp3 (fst (counts x)))).
+    2:{ intros x Hx. apply (counts_parens x (existsb_false_forall _ _ _ Hk x Hx)). }
+    rewrite (sumN_ext _ (fun x => lp3 (snd (counts x))) (fun x => rp3 (snd (counts x)))).
+    2:{ intros x Hx. apply (counts_parens x (existsb_false_forall _ _ _ Hk x Hx)). }
+    reflexivity.
+  - intro Hk. unfold k7_entity in Hk. rewrite H1, H4. unfold A, B. rewrite S1, T1, !map_map. cbn [sel3 fst].
+    assert (Hsum : (sumN (map (fun x => sel3 (fst (counts x))) (ce_fields ce)) + sumN (map (fun x => sel3 (snd (counts x))) (ce_fields ce))
+                    = sumN (map tot (ce_fields ce)))%N).
+    { apply sum_tot_split. }
+    rewrite Hsum.
+    assert (Hle : (sumN (map tot (ce_fields ce)) <= sumN (map (fun x => 4 * csubs x)%N (ce_fields ce)))%N).
+    { apply sumN_le. intros x Hx. apply tot_linear. apply (existsb_false_forall _ _ _ Hk x Hx). }
+    rewrite sumN_scale in Hle.
+    (* the resolved fields have as many sub-selections as the request *)
+    unfold resolve_entity in Hr.
+    destruct (match re_alias q with Some a => starts_underscore a | None => false end); [discriminate|].
+    destruct (find_entity dm (re_ns q) (re_name q)) as [e|]; [|discriminate].
+    destruct (resolve_list dm e (re_fields q) []) as [cs|] eqn:El; [|discriminate].
+    destruct (match re_alias q with Some a => match find_entity dm [] a with Some _ => true | None => false end | None => false end); [discriminate|].
+    inversion Hr; subst ce. cbn [ce_fields] in *.
+    assert (Hsubs : sumN (map csubs cs) = sumN (map count_subs (re_fields q))).
+    { apply (resolve_list_csubs dm (re_fields q)) with (e := e) (keys := @nil ident); [|exact El].
+      apply Forall_forall. intros f _. apply resolve_field_csubs. }
+    unfold select_bound. fold (sumN (map count_subs (re_fields q))). lia.
+Qed.
